@@ -19,6 +19,12 @@ let fst = function
 let snd = function
 | (_, y) -> y
 
+(** val length : 'a1 list -> nat **)
+
+let rec length = function
+| [] -> O
+| _ :: l' -> S (length l')
+
 (** val app : 'a1 list -> 'a1 list -> 'a1 list **)
 
 let rec app l m =
